@@ -292,10 +292,10 @@ pub fn apply_single<P: TP, V: Val>(side: &mut Side<P, V>, op: &Op, env: &mut Env
                 }
             }
             if sel.len == 0 {
-                // documented: a zero-length prefix empties the map (same as clear)
+                // documented: a zero-length prefix empties the map (same as clear); the map object stays the
+                // same, so the largest number of nodes it ever needed (peak) is kept
                 side.canonical = true;
                 side.drift = 0;
-                side.peak_nodes = 1;
             } else {
                 side.canonical = false;
             }
@@ -346,7 +346,6 @@ pub fn apply_single<P: TP, V: Val>(side: &mut Side<P, V>, op: &Op, env: &mut Env
             side.model.m.clear();
             side.canonical = true;
             side.drift = 0;
-            side.peak_nodes = 1;
             env.ev("clear");
         }
         Op::Entry { p, act, .. } => apply_entry(side, *p, act, env)?,
@@ -652,8 +651,9 @@ fn apply_entry<P: TP, V: Val>(side: &mut Side<P, V>, p: PRef, act: &EntryAct, en
             let got = raw_of(e.key());
             ensure!(got.key() == k, "C01", "C01:entry.key", "step {step}: entry({:?}).key() = {:?}", k, got.key());
             if env.focus.has(18) {
-                let want = cur.as_ref().map_or(qbits, |s| s.repr);
-                ensure!(got.bits == want, "C18", "C18:entry.key:repr", "step {step}: entry({:?}).key() has bits {:x}, expected {:x} (entry present: {})", k, got.bits, want, cur.is_some());
+                if let Some(s) = cur.as_ref() {
+                    ensure!(got.bits == s.repr, "C18", "C18:entry.key:repr", "step {step}: entry({:?}).key() of an occupied entry has bits {:x}, stored representation {:x} (query {:x})", k, got.bits, s.repr, qbits);
+                }
             }
         }
         EntryAct::Match { vac, occ } => {
@@ -665,7 +665,7 @@ fn apply_entry<P: TP, V: Val>(side: &mut Side<P, V>, p: PRef, act: &EntryAct, en
                     match vac {
                         VacAct::Key => {
                             let got = raw_of(e.key());
-                            ensure!(got.key() == k && (!env.focus.has(18) || got.bits == qbits), "C01", "C01:vacant.key", "step {step}: VacantEntry::key() = {:?}", got);
+                            ensure!(got.key() == k, "C01", "C01:vacant.key", "step {step}: VacantEntry::key() = {:?}", got);
                         }
                         VacAct::Insert | VacAct::InsertWith | VacAct::Default => {
                             env.cur_op = "vacant.insert";
